@@ -94,7 +94,7 @@ func init() {
 				if math.Abs(got-want) > 1e-9*math.Max(1, math.Abs(want)) {
 					res.violate("C20", "gw_series_mismatch", fmt.Sprintf("series %v: level for day %d is %.12g, expected %.12g", pts, q, got, want), map[string]float64{"got": got, "want": want})
 				}
-				if got < lo-1e-9 || got > hi+1e-9 {
+				if got < lo || got > hi { // "hence between the two values": exactly, a plateau must be returned as it is
 					res.violate("C20", "gw_outside_neighbours", fmt.Sprintf("series %v: level for day %d is %.12g, outside the neighbouring values [%.12g, %.12g]", pts, q, got, lo, hi), nil)
 				}
 			}
